@@ -1,5 +1,6 @@
-// Package c09 injects key reports (legacy bytes, C0, ESC-prefixed, SS3, CSI
-// letter, CSI ~, CSI u) through a fake console into a real Vaxis, reads the
+// Package c09 injects key reports (legacy bytes, C0, ESC-prefixed, SS3 incl.
+// the application keypad, CSI letter, CSI ~, CSI u; alone or several back to
+// back in one read) through a fake console into a real Vaxis, reads the
 // resulting Key events from Events() and records what the library says about
 // them (decoded fields, Matches, MatchString, String). The driver never
 // computes an expectation: specs/keys/KeyCodec_Trace.tla decides.
@@ -38,7 +39,11 @@ type SProbe struct {
 }
 
 type Item struct {
-	Enc     kc.Enc
+	Enc kc.Enc
+	// Then: further reports injected in the same chunk right behind Enc (before
+	// the sentinel): every report must be decoded on its own, none may take
+	// bytes of its neighbour.
+	Then    []kc.Enc `json:",omitempty"`
 	Probes  []Probe  `json:",omitempty"`
 	SProbes []SProbe `json:",omitempty"`
 	Self    bool     `json:",omitempty"`
@@ -337,8 +342,11 @@ type runner struct {
 // once injects one report followed by the sentinel and returns the Key
 // events (and the number of other events) delivered before the sentinel;
 // ok=false when the sentinel did not arrive within the bound.
-func (r *runner) once(e kc.Enc) (keys []vaxis.Key, other int, ok bool) {
+func (r *runner) once(e kc.Enc, then ...kc.Enc) (keys []vaxis.Key, other int, ok bool) {
 	b := e.Bytes()
+	for _, t := range then {
+		b = append(b, t.Bytes()...)
+	}
 	if len(b) == 1 && b[0] == 0x1b {
 		// a lone ESC is told from an escape sequence by a timer: deliver it
 		// alone and wait for the event before the sentinel follows
@@ -386,17 +394,17 @@ func sameKeys(a, b []vaxis.Key) bool {
 	return true
 }
 
-// roundTrip is once, repeated when the outcome is not exactly one key event:
+// roundTrip is once, repeated when the outcome is not exactly one key event per report:
 // the parser tells a lone ESC from an escape sequence by a 10 ms timer, so
 // on a starved machine a report can be torn apart (that race is the business
 // of C08/C10). An outcome is recorded when it is normal or when it
 // reproduces; r.dead is set when the session no longer answers.
-func (r *runner) roundTrip(e kc.Enc) (keys []vaxis.Key, other int) {
+func (r *runner) roundTrip(e kc.Enc, then ...kc.Enc) (keys []vaxis.Key, other int) {
 	var pk []vaxis.Key
 	po := -1
 	for attempt := 0; attempt < 4; attempt++ {
-		k, o, ok := r.once(e)
-		if ok && len(k) == 1 && o == 0 {
+		k, o, ok := r.once(e, then...)
+		if ok && len(k) == 1+len(then) && o == 0 {
 			return k, o
 		}
 		if ok && po == o && sameKeys(pk, k) {
@@ -522,26 +530,32 @@ func Run(ctx *Ctx, sc *Scn) (evs []trace.Ev, note string) {
 		return append(evs, trace.Ev{"ev": "panic", "msg": ascii(r.dead), "item": 0}), r.dead
 	}
 
-	decode := func(e kc.Enc) (trace.Ev, []vaxis.Key) {
+	decode := func(e kc.Enc, then ...kc.Enc) (trace.Ev, []vaxis.Key) {
 		e = e.Norm()
-		keys, other := r.roundTrip(e)
+		cps := e.CodePoints()
+		thenN := []kc.Enc{}
+		for _, t := range then {
+			thenN = append(thenN, t.Norm())
+			cps = append(cps, t.CodePoints()...)
+		}
+		keys, other := r.roundTrip(e, thenN...)
 		got := []any{}
 		for _, k := range keys {
 			got = append(got, absKeyRec(k))
 		}
-		ctx.dump("item %d %s -> %+v other=%d\n", item, e, keys, other)
-		atomic.AddInt64(&ctx.NKeys, 1)
-		return trace.Ev{"ev": "key", "item": item, "enc": e, "facts": kc.Facts(e.CodePoints()...), "got": got, "other": other}, keys
+		ctx.dump("item %d %s then %v -> %+v other=%d\n", item, e, thenN, keys, other)
+		atomic.AddInt64(&ctx.NKeys, int64(1+len(then)))
+		return trace.Ev{"ev": "key", "item": item, "enc": e, "then": thenN, "facts": kc.Facts(cps...), "got": got, "other": other}, keys
 	}
 
 	for _, it := range sc.Items {
-		ev, keys := decode(it.Enc)
+		ev, keys := decode(it.Enc, it.Then...)
 		evs = append(evs, ev)
 		if r.dead != "" {
 			evs = append(evs, trace.Ev{"ev": "panic", "msg": ascii(r.dead), "item": item})
 			return evs, r.dead
 		}
-		if len(keys) == 1 {
+		if len(keys) == 1 && len(it.Then) == 0 {
 			k := keys[0]
 			for _, p := range it.Probes {
 				bms := p.BMs
